@@ -4,21 +4,38 @@
 Writes mutants/RESULTS.md. Usage: tools/mutant_sweep.py [Cxx ...]"""
 import glob, os, re, subprocess, sys, time
 VERIF = os.path.dirname(os.path.dirname(os.path.abspath(__file__)))
-want = set(sys.argv[1:])
-rows = []
-for kind, pat, expect in (("breaking", "mutants/C*.diff", 1), ("equivalent", "mutants/equivalent/C*.diff", 0)):
+args = sys.argv[1:]
+jobs = 1
+if "--jobs" in args:
+    i = args.index("--jobs")
+    jobs = int(args[i + 1])
+    del args[i:i + 2]
+want = set(args)
+tasks = []
+for kind, pat, expect in (("breaking", "mutants/[CX]*.diff", 1), ("equivalent", "mutants/equivalent/[CX]*.diff", 0)):
     for f in sorted(glob.glob(os.path.join(VERIF, pat))):
         prop = os.path.basename(f)[:3]
         if want and prop not in want:
             continue
-        t0 = time.time()
-        p = subprocess.run([sys.executable, os.path.join(VERIF, "tools", "mutant.py"), "--patch", f, "--property", prop],
-                           stdout=subprocess.PIPE, stderr=subprocess.STDOUT, text=True)
-        m = re.search(r"(\d+) violation\(s\)", p.stdout)
-        drift = "MODEL-DRIFT" in p.stdout
-        rows.append((prop, os.path.basename(f), kind, p.returncode, m.group(1) if m else "-", drift, expect == p.returncode,
-                     round(time.time() - t0)))
-        print(rows[-1], flush=True)
+        tasks.append((kind, f, expect, prop))
+
+
+def one(task):
+    kind, f, expect, prop = task
+    t0 = time.time()
+    p = subprocess.run([sys.executable, os.path.join(VERIF, "tools", "mutant.py"), "--patch", f, "--property", prop],
+                       stdout=subprocess.PIPE, stderr=subprocess.STDOUT, text=True)
+    m = re.search(r"(\d+) violation\(s\)", p.stdout)
+    drift = "MODEL-DRIFT" in p.stdout
+    row = (prop, os.path.basename(f), kind, p.returncode, m.group(1) if m else "-", drift, expect == p.returncode,
+           round(time.time() - t0))
+    print(row, flush=True)
+    return row
+
+
+from concurrent.futures import ThreadPoolExecutor
+with ThreadPoolExecutor(max_workers=jobs) as ex:
+    rows = list(ex.map(one, tasks))
 with open(os.path.join(VERIF, "mutants", "RESULTS.md"), "w") as out:
     out.write("# Mutant sweep (tools/mutant_sweep.py, quick tier)\n\n")
     out.write("| property | patch | kind | check rc | violations | drift reported | as expected | s |\n|---|---|---|---|---|---|---|---|\n")
